@@ -266,13 +266,13 @@ var respExtVariants = []string{
 	// reported under their own classes if accepted
 	"permessage-deflate; server_max_window_bits=99",
 	"permessage-deflate; server_max_window_bits=abc",
-	"\nmeow",                                     // two header lines, the first one empty
+	"\nmeow", // two header lines, the first one empty
 	"\npermessage-deflate; client_max_window_bits=7",
-	"permessage-deflate\nmeow",                    // a second extension on a second line
+	"permessage-deflate\nmeow",                      // a second extension on a second line
 	"permessage-deflate; server_max_window_bits=\"", // a lone quote as value
 	"permessage-deflate; server_max_window_bits=\"\"",
 	"permessage-deflate; server_max_window_bits=10; server_max_window_bits=12", // duplicate, both with values
-	"permessage-deflate; server_max_window_bits=012", // numerically in range, not the decimal without leading zeros the RFC asks for
+	"permessage-deflate; server_max_window_bits=012",                           // numerically in range, not the decimal without leading zeros the RFC asks for
 	"permessage-deflate; server_max_window_bits=+12",
 	"permessage-deflate; server_max_window_bits",
 	"permessage-deflate; client_no_context_takeover; client_no_context_takeover",
